@@ -29,10 +29,16 @@ CLAIMED = {
             "string operands, built-in argument rules, which sub-expressions the post-conversion passes visit, verdict stability under renaming: linter traversal, outside", "4/C12"),
     "C13": ("default-type rule: after any sequence of <= 3 DEFtype statements with symbolic type and symbolic letter ranges in any case, char_to_qualifier(c) is the type of the last statement covering fold(c), SINGLE if none; bare names qualify by first letter, suffixed names keep their suffix",
             "DIM AS / duplicate definitions / SHARED / parameters / CONST scoping (hash-map scopes over the AST) are outside", "4/C13"),
+    "C14": ("the operator dispatch of the constant folder against the operator handlers of the VM (sliced text of the BinaryExpression and UnaryExpression arms of ConstEvaluator::eval_const and of handlers::math / comparison / logical): for each of the 13 binary and 2 unary operators and every pair of numeric operand types, folding `a op b` gives the value and type - or the Overflow / Division by zero / Type mismatch rejection - that the VM's handler gives for the same operands; decided (a) with the operations on values uninterpreted (any result, ordering and conversion outcome: which operation on which operands after which conversions) and (b) on concrete full-width values for + - * < <= = >= > <> and the unary operators on three operand type pairs" + SLICE,
+            "the tree walk of eval_const, constants referring to earlier constants, the conversion to the constant's suffix type, the two evaluation sites, the replacement of uses by literals and string operands are outside (DESIGN 4/C14)", "4/C14"),
+    "C15": ("label-resolution pass of the generator (sliced text of LabelResolver::{resolve_labels, resolve_label, build_label_to_address_map}): for every program of 3..4 (quick) / 5..6 (thorough) instructions over the label-related instruction kinds with labels drawn from three names, each defined once and every referenced label defined, every branch / call / handler / resume target becomes the address - inside the list - of the label of that name, and nothing else changes; a duplicated label resolves to its last definition" + SLICE,
+            "everything before the resolver - that the generator emits each label once, keeps a procedure's branches inside it, ends the main module with a halt and procedures with a return, and pairs pushes and pops along every path - needs statement trees through the generator and is outside (DESIGN 4/C15)", "4/C15"),
     "C16": ("device and statement state machine: WritePrinter column = bytes since the last CR/LF for every text within the bound, comma lands on the next multiple of 14, println resets; PrintState newline rule for every history of <= 3 items",
             "rendering of numbers (format!), PRINT USING, per-file devices and the lowering of PRINT are outside", "4/C16"),
     "C17": ("MID$, INSTR, VAL kernels: do_mid = substring reference for every string within the bound and every start/count, split law; do_instr = least position >= start; argument conversions reject negative counts / non-positive starts for every INTEGER; LEFT$, RIGHT$, UCASE$, LCASE$, LTRIM$, RTRIM$, SPACE$, STRING$(n, code): the sliced body of each run() on an argument array - exact prefix / suffix for each (length, count), only letters of the other case change, exactly the leading / trailing blanks go (texts with TAB and LF included), n blanks / n copies, Illegal function call for every negative count and every code outside 0..255; INSTR with needles of up to 3 (4 thorough) letters",
             "STRING$(n, text$), LEN (argument taken as &Variant: Kani 0.68 loses a String inside an enum with float variants), STR$ (format!), the concatenation laws and that Context delivers the arguments in order are outside", "4/C17"),
+    "C18": ("the handle table and the record arithmetic of RANDOM files (sliced text of FileManager::{new, open, close, close_all, try_get_file_info, try_get_file_info_input, try_get_file_info_output} and FileInfo::{new_*, get_record, put_record, ensure_random}) on an in-memory file system: a record PUT is what GET of the same number returns whatever other records were written meanwhile, an unwritten record reads as zeros (record lengths 1..3, records 1..3, any contents); from any table with up to two of the handles 1..3 open in any mode, OPEN on a handle in use raises File already open (55) and changes nothing, OPEN FOR INPUT of a missing file raises File not found (53) and leaves the handle free, access in the wrong mode or to a closed handle is a file error, CLOSE frees exactly that handle, which can be opened again, CLOSE of all frees every handle" + SLICE,
+            "that text written with PRINT # is read back by INPUT # / LINE INPUT #, EOF, APPEND, KILL / NAME, FIELD / LSET, the mapping of std::io::Error kinds and the host file system are outside (ReadInputSource is io::Result-based and exceeded 20 GB at 3 input bytes)", "4/C18"),
     "C19": ("integers full width (all 2^16 values / 2^32 pairs): AND/OR/NOT = machine bit operations, to/from bytes = little endian, PEEK/POKE byte view; CVD decoder = f64::from_le_bytes for every normal double and +-0; MKD$ encoder parts per binary exponent with all 52 mantissa bits symbolic",
             "the assembly of the encoder parts (and so CVD(MKD$(x)) = x end to end), subnormals, inf/NaN are outside; f64::powi(2.0,k) is stubbed by the exact power of two", "4/C19"),
     "C20": ("every combinator applied to arbitrary sub-parsers that satisfy the contract K (success never moves backwards, soft failure leaves the position, fatal stays fatal) satisfies K itself and has its documented meaning: an inductive step that covers parser expressions of any depth; primitives decided directly on symbolic inputs",
@@ -43,9 +49,6 @@ NOT_APPLICABLE = {
     "C01": "needs a symbolic program through parser+linter+generator+VM; none of the four is symbolically executable here (HashMap scopes, boxed combinators, recursive AST drop glue: probes in DESIGN 2); the arithmetic/typing/precedence kernels it relies on are decided under C06, C12, C10",
     "C02": "about statement trees under nesting through the code generator; symbolic trees blow up (AST drop glue, format!-built labels, HashMap label resolver); concrete trees would be enumeration, not solver-based checking",
     "C07": "totality of parser+linter over all texts; same obstacle as C01 (the position arithmetic is under C11, the literal scanners under C10)",
-    "C14": "ConstEvaluator::eval_const probed directly: no verdict in 500 s / 11 GB even for `a + b` over two symbolic INTEGER literals (merged Variant tags -> recursive drop glue); the shared arithmetic is decided under C06",
-    "C15": "well-formedness of generated code for all programs; the generator and label resolver cannot run on symbolic programs; checking enumerated concrete outputs would be a different technique",
-    "C18": "file handles sit on std::fs::File (FFI) and a HashMap; the one generic piece, ReadInputSource<T: Read>, is io::Result-based and exceeded 20 GB at 3 input bytes",
 }
 
 
